@@ -141,3 +141,74 @@ func c11BatchChild(start, end int, out *bufio.Writer, cur chan<- int) error {
 	}
 	return nil
 }
+
+// ---- family "page": files whose size is an exact multiple of the page size -------------------
+//
+// The loader maps shard files; a file cut at a page boundary whose trailer (the last 8 bytes: offset
+// and size of the table of contents) points at or beyond the end of the file must be rejected like
+// every other damaged shard - a read that the bounds check lets through into a page behind the end
+// of the file kills the process with SIGBUS, which no recover() contains.
+
+var (
+	c11PageOffs = []int64{0, -8, -1, 0x7fffffff, 0xffffffff} // relative to the file size, except the two large absolute values
+	c11PageSzs  = []uint32{0, 8, 64, 4096, 0xffffffff}
+)
+
+func c11PageTotal() int { return 3 * len(c11PageOffs) * len(c11PageSzs) * 2 }
+
+func c11PageDecode(i int) (pages int, off int64, sz uint32, rel bool, exact bool) {
+	exact = i%2 == 0 // exactly pages*4096 bytes, or one byte less (control)
+	i /= 2
+	sz = c11PageSzs[i%len(c11PageSzs)]
+	i /= len(c11PageSzs)
+	off = c11PageOffs[i%len(c11PageOffs)]
+	rel = off <= 0
+	i /= len(c11PageOffs)
+	pages = 1 + i
+	return
+}
+
+func c11PageDesc(i int) string {
+	pages, off, sz, rel, exact := c11PageDecode(i)
+	size := pages * 4096
+	if !exact {
+		size--
+	}
+	o := fmt.Sprintf("%d", off)
+	if rel {
+		o = fmt.Sprintf("size%+d", off)
+	}
+	return fmt.Sprintf("file of %d bytes whose trailer says TOC offset=%s size=%d", size, o, sz)
+}
+
+func c11PageBase() []byte {
+	r := &ref.Repo{Name: "victim/paged", ID: 43, Branches: []string{"HEAD"}}
+	for i := 0; i < 6; i++ {
+		r.Docs = append(r.Docs, &ref.Doc{Name: fmt.Sprintf("p/f%d.txt", i), Content: []byte(strings.Repeat(fmt.Sprintf("abc line %d of a larger file\n", i), 120)), Branches: []string{"HEAD"}, Language: "Text"})
+	}
+	b, err := gen.BuildSimple(r)
+	if err != nil {
+		panic(err)
+	}
+	if len(b) < 3*4096+16 {
+		panic(fmt.Sprintf("c11: paged base shard too small: %d bytes", len(b)))
+	}
+	return b
+}
+
+func c11PageVariant(base []byte, i int) []byte {
+	pages, off, sz, rel, exact := c11PageDecode(i)
+	size := pages * 4096
+	if !exact {
+		size--
+	}
+	out := append([]byte{}, base[:size]...)
+	o := uint32(off)
+	if rel {
+		o = uint32(int64(size) + off)
+	}
+	// trailer layout: big-endian uint32 offset, uint32 size of the TOC section
+	out[size-8], out[size-7], out[size-6], out[size-5] = byte(o>>24), byte(o>>16), byte(o>>8), byte(o)
+	out[size-4], out[size-3], out[size-2], out[size-1] = byte(sz>>24), byte(sz>>16), byte(sz>>8), byte(sz)
+	return out
+}
